@@ -143,7 +143,6 @@ package udp
 //@   loop 1 ensures [header_valid_and_announces_the_body] uhdr_crcok(ghost.dgw[old(ghost.dgw_n)]) && uhdr_len(ghost.dgw[old(ghost.dgw_n)]) == len(body)
 //@   loop 1 ensures [successful_response_unchanged] e == nil ==> same(body, response.Body) &&
 //@       (0 <= response.Index && response.Index < 32768 ==> uhdr_idx(ghost.dgw[old(ghost.dgw_n)]) == response.Index && uhdr_noerr(ghost.dgw[old(ghost.dgw_n)]))
-//@   loop 1 ensures [body_follows_the_header] forall(i, 0, len(body), ghost.dgw[old(ghost.dgw_n)][8 + i] == body[i])
 
 //@ rule goroutine_roots prop=C11
 //@ rule go_ctx (*Handler).Serve from=withcancel prop=C11,C10
